@@ -19,7 +19,7 @@ import (
 	"unsafe"
 
 	"github.com/whoisnian/glb/logger"
-	"github.com/whoisnian/glb/zzverif/vtime"
+	"verif/engine/shim/vtime"
 	"verif/engine/vcommon"
 	"verif/engine/vlog"
 	"verif/engine/vstate"
